@@ -22,7 +22,7 @@ CMD = {1: "kill-line", 2: "kill-word(M-d)", 3: "kill-word(C-Delete)", 4: "C-w", 
        15: "self-insert", 16: "C-g", 17: "yank(C-x r y)", 18: "kill-region(C-x r k)", 19: "set-cursor",
        21: "cursor-position-report",
        31: "vi-x", 32: "vi-X", 33: "vi-D", 34: "vi-dd", 35: "vi-yy", 36: "vi-p", 37: "vi-P",
-       38: 'vi-"rp', 39: 'vi-"rP', 40: "vi-visual"}
+       38: 'vi-"rp', 39: 'vi-"rP', 40: "vi-visual", 51: "vi-s+Esc", 52: "vi-C+Esc", 53: "vi-S+Esc"}
 VKEY = {0: "d", 1: "y", 2: "x", 3: '"rd', 4: '"ry'}
 INSERT_ONLY = {1, 2, 3, 5, 6, 7, 8, 15, 17}
 
@@ -103,7 +103,8 @@ def cmd_keys(op):
              14: [_kp(Keys.ControlE, "\x05")], 16: [_kp(Keys.ControlG, "\x07")],
              17: [_kp(Keys.ControlX, "\x18"), _kp("r"), _kp("y")], 18: [_kp(Keys.ControlX, "\x18"), _kp("r"), _kp("k")],
              31: [_kp("x")], 32: [_kp("X")], 33: [_kp("D")], 34: [_kp("d"), _kp("d")], 35: [_kp("y"), _kp("y")],
-             36: [_kp("p")], 37: [_kp("P")]}
+             36: [_kp("p")], 37: [_kp("P")],
+             51: [_kp("s"), ESC], 52: [_kp("C"), ESC], 53: [_kp("S"), ESC]}
     if k in table:
         return table[k]
     if k == 21:
@@ -429,6 +430,19 @@ class Oracle:
         if k == 33:
             a, e = _line_bounds(t0, c0)
             return self._kill_clause(name, True, False, t0, c0, ring0, t1, c0, ring1, head0, span=t0[c0:e])
+        if k == 51:      # s: the next arg characters (line ends included) go to the register
+            return self._kill_clause(name, True, False, t0, c0, ring0, t1, c0, ring1, head0, span=t0[c0:c0 + arg])
+        if k == 52:      # C = D
+            a, e = _line_bounds(t0, c0)
+            return self._kill_clause(name, True, False, t0, c0, ring0, t1, c0, ring1, head0, span=t0[c0:e])
+        if k == 53:      # S / cc: the whole line is stored line-wise, the line keeps its leading white space only
+            a, e = _line_bounds(t0, c0)
+            line = t0[a:e]
+            if ring1 != _ring_after_push(ring0, [S(line), 1]):
+                return ("S: register is not the current line %r with type LINES" % line, "vi-lines-register")
+            if t1 != t0[:a] + line[:len(line) - len(line.lstrip())] + t0[e:]:
+                return ("S: text outside the current line changed / line not emptied to its margin", "vi-change-line")
+            return None
         if k in (34, 35):
             ls = t0.split("\n")
             row = t0.count("\n", 0, c0)
@@ -745,8 +759,8 @@ def rand_vi_ops(rng, tlen, n):
         if rng.random() < 0.06:
             ops.append([21, []])
         if r < 0.3:
-            k = rng.choice([31, 32, 33, 34, 35])
-            ops.append([k, with_cpr(rng, rand_arg(rng, 1, tlen) if k != 33 else [])])
+            k = rng.choice([31, 32, 33, 34, 35, 51, 52, 53])
+            ops.append([k, with_cpr(rng, rand_arg(rng, 1, tlen) if k not in (33, 52, 53) else [])])
         elif r < 0.55:
             k = rng.choice([36, 37])
             ops.append([k, rand_paste_arg(rng, 1)])
@@ -810,12 +824,12 @@ def gen_cases(chk):
     vring = [[S("Q"), 0]]
     for t in texts_upto(ALPHA_V, 5 if thorough else 4):
         for cur in range(len(t) + 1):
-            for k in (31, 32, 33, 34, 35):
+            for k in (31, 32, 33, 34, 35, 51, 52, 53):
                 for a in ([], [2], [5]):
-                    if k == 33 and a:
+                    if k in (33, 52, 53) and a:
                         continue
                     for pk in ([36, []], [37, []], [36, [3]]):
-                        add("vi_delete_paste_exhaustive", [1, S(t), cur, vring, [[k, a], pk]], pE * (0.2 if len(t) == 5 else 1))
+                        add("vi_delete_paste_exhaustive", [1, S(t), cur, vring, [[k, a], pk]], pE * (0.12 if len(t) == 5 else 1))
             for m in range(len(t) + 1):
                 for ty in (0, 1, 2):
                     for key in (0, 1, 2, 3, 4):
